@@ -313,3 +313,69 @@ def run_split(ck, srcs, targets=("sql.sqlite",), events=None):
                 if len(other) < 5:
                     other.append({"src": s, "target": t, "kept_impl": kept_impl, "kept_model": kept_model})
     ck.coverage["split_hook"].update({"distinct_abstract_calls": len(keys), "other_disagreements_sample": other})
+
+
+# ------------------------------------------------------------------ lowering.rs: which window a column is handed
+HEADER_LOW = ("From Coq Require Import List NArith Bool.\nFrom PV Require Import Model.WinLower.\nImport ListNotations.\nLocal Open Scope N_scope.\n")
+
+
+def run_lowerer(ck, events):
+    """per compile: the trace of the Lowerer's window field (hook verif:lowerer_op: window_set / window_take / window_reset,
+    and every new Compute with its needs_window and its window) replayed by Model/WinLower.v lreplay; and the
+    SPECIFICATION that a column which needs a window is handed one (false for sort keys / partition columns: F51)"""
+    evs, n_comp, n_ok = events
+    per = {}
+    for s, t, e, ok in evs:
+        per.setdefault((s, t), []).append(e)
+    n_ops = sum(len(v) for v in per.values())
+    has_set = any(e.get("op") == "window_set" for v in per.values() for e in v)
+    ck.coverage["lowerer_hook"] = {"compiles": n_comp, "compiled_ok": n_ok, "traces": len(per), "ops": n_ops}
+    if n_ok and not has_set:
+        ck.violation("hook verif:lowerer_op logs no `window_set` operation on %d successful compiles (hooks/lowerer-window.diff is not in the tree): "
+                     "the model of the Lowerer's window field is not tied to the code" % n_ok, {"kind": "hook-missing", "hook": "verif:lowerer_op window_set"}, no_input=True)
+        return
+    traces = {}
+    for (s, t), ops in per.items():
+        toks, seq, keypos, cur_set = {}, [], [], False
+        for e in ops:
+            op, d = e.get("op"), e.get("d") or {}
+            if op == "window_set":
+                w = json.dumps(d["window"], sort_keys=True)
+                seq.append((0, toks.setdefault(w, len(toks) + 1), False, []))
+                cur_set = True
+            elif op == "window_take":
+                seq.append((1, 0, False, []))
+                cur_set = False
+            elif op == "window_reset":
+                seq.append((2, 0, False, []))
+                cur_set = False
+            elif op == "declare" and d.get("how") == "new":
+                c = d["compute"]
+                w = c.get("window")
+                got = [] if w is None else [toks.get(json.dumps(w, sort_keys=True), 0)]
+                needs = bool(d.get("needs_window"))
+                seq.append((3, 0, needs, got))
+                if needs and w is None and not c.get("is_aggregation"):
+                    keypos.append(not cur_set)
+        traces.setdefault(tuple(seq), []).append((s, t, keypos))
+    keys = sorted(traces, key=repr)
+    exprs = ["(lreplay None (map lop_of [%s]))" % "; ".join("(%d, %d, %s, [%s])" % (k, w, "true" if n else "false", "; ".join(str(x) for x in g)) for k, w, n, g in seq) for seq in keys]
+    try:
+        mv = coq_eval(HEADER_LOW, exprs)
+    except RuntimeError:
+        mv = coq_eval(HEADER_LOW, exprs, shards=4)
+    for seq, okm in zip(keys, mv):
+        for s, t, keypos in traces[seq]:
+            ck.count("lower-corr", json.dumps([s, t]))
+            ck.stat("lower-corr", "declares:%d" % min(sum(1 for x in seq if x[0] == 3), 9))
+            ck.stat("lower-corr", "windowed:%d" % min(sum(1 for x in seq if x[0] == 3 and x[3]), 5))
+            if not okm:
+                ck.stat("lower-corr", "disagreement:replay")
+                ck.disagreement("a Compute carries a window other than the one declare_as_column is modelled to hand it (Model/WinLower.v): %s [%s]" % (s.replace("\n", " | ")[:300], t),
+                                {"src": s, "target": t, "trace": [list(x) for x in seq]}, lambda _c: None)
+            for kp in keypos:
+                # SPECIFICATION: a column that needs a window gets the window of its transform call
+                got = ck.disagreement("a column that needs a window is lowered without one (%s): %s [%s]" % ("it is a sort key / partition column of the transform call: lowered before the call's window is set" if kp else "no window is current", s.replace("\n", " | ")[:300], t),
+                                      {"src": s, "target": t, "key_position": kp}, lambda c: "F51-window-fn-as-sort-key" if c["key_position"] else None)
+                ck.stat("lower-corr", "needs-window-got-none:" + (got or "UNEXPLAINED"))
+    ck.coverage["lowerer_hook"]["distinct_traces"] = len(keys)
